@@ -15,7 +15,8 @@ CC_INV = ["IndexAgrees", "Chain", "OneWinner", "FailedLeavesKey", "FailedOnlyIfD
 
 MC_INV = {"C07": ["CompactionSafe", "IndexAgrees", "ScanIsSnapshot", "PointIsSnapshot"]}
 T_MON = {"C07": ["M_CompactionPreservesReads", "M_CompactionDeletesLiveIndex", "M_ReadIsSnapshot", "M_MoreFlag", "M_CountIsSnapshot",
-                 "M_Writable", "M_WriteCondition", "M_SuccessMeansWritten", "M_FailedOnlyIfDiffered", "M_CompactClampCommitted"]}
+                 "M_Writable", "M_WriteCondition", "M_SuccessMeansWritten", "M_FailedOnlyIfDiffered", "M_CompactClampCommitted",
+                 "M_CompactionRestartPreservesReads"]}
 
 
 B_MON = ["M_OnlyConfiguredRanges", "M_AllConfiguredRanges", "M_OnlyConfiguredRangesOddConfig", "M_AllConfiguredRangesOddConfig"]
@@ -153,6 +154,15 @@ def check_compact(prop, tier, seed):
             r = json.load(open(rp)); r["engine"] = eng
             fr.append(r)
         cov["free_running"] = fr
+        # at scale: a compaction over 1500 keys whose scan meets a transient iterator error and starts over
+        d = work.sub("compactbulk")
+        tr = os.path.join(d, "bulk.ndjson"); rp = os.path.join(d, "bulk.json")
+        rc, out = run([binp, "streambulk", "-out", tr, "-report", rp, "-engine", "memkv" if quick else "memkv,badger,tikv-regions"], env=GOENV, timeout=900)
+        if rc != 0 or not os.path.exists(rp):
+            raise Undecided("streambulk failed (rc=%s): %s" % (rc, (out or "")[-800:]))
+        alltraces.append(tr)
+        cov["replay"].append(dict(what="1500 keys, 100 updated and 100 deleted, a compaction whose scan fails once in the middle and starts over, then a list",
+                                  engines="memkv" if quick else "memkv,badger,tikv-regions"))
         ntr, v = validate_all(work, alltraces, T_MON[prop], chunks=8)
         cov["traces_validated_against_impl"] = ntr
         if not v:
